@@ -17,6 +17,7 @@ races on them (`atomic_discipline_race_free`).  As search
 support the thorough tier runs the concurrent harness under the Go race detector.
 -/
 import GoNfsd.Gen.Skeleton
+import GoNfsd.Model.Skeleton
 import GoNfsd.Model.Locks
 
 namespace GoNfsd.Props.C14
@@ -119,5 +120,24 @@ theorem atomic_fields_are_only_touched_atomically :
 /-- the table is not empty and does contain atomic accesses -/
 theorem atomic_table_nonempty :
     0 < (GoNfsd.Gen.Skeleton.atomicUses.filter (fun u => u.2.1 == 0)).length := by decide
+
+/-! ### state shared by all requests and protected by no lock -/
+
+/-- THE SERVER-WIDE STRUCTS ARE IMMUTABLE ONCE PUBLISHED: `nfs.Nfs`, `fstxn.FsState`, `super.FsSuper`, `simple.Nfs` and
+    `kvs.KVS` are reached by every request without any lock (handlers hold the locks of the inodes they touch, and two
+    requests on different files share none).  Table regenerated from the whole module on every run (types by go/types):
+    every assignment to a field of one of them happens in a function that built the struct itself — its constructor,
+    before anybody else can see it — the daemon's option `Unstable`, set by `main` before serving, aside.  No write
+    after publication ⇒ no two conflicting accesses ⇒ no race on them, whatever the handlers do concurrently.
+    (Seeded change C14m adds a plain flag to `Nfs` that WRITE sets and COMMIT clears.) -/
+theorem server_wide_state_is_written_by_its_constructors_only :
+    ∀ w ∈ GoNfsd.Gen.Skeleton.fieldWrites, GoNfsd.Model.Skeleton.fieldWriteCheck w = true := by decide
+
+/-- the table is not empty, contains a constructor's write to `nfs.Nfs`, and the checker rejects a handler's write -/
+theorem field_write_table_nonempty :
+    ("nfs.MakeNfs", "nfs.Nfs", "verf", "local") ∈ GoNfsd.Gen.Skeleton.fieldWrites := by decide
+
+example : GoNfsd.Model.Skeleton.fieldWriteCheck ("nfs.Nfs.NFSPROC3_WRITE", "nfs.Nfs", "pendingUnstable", "shared") = false := by decide
+example : GoNfsd.Model.Skeleton.fieldWriteCheck ("inode.Inode.Write", "inode.Inode", "Size", "shared") = true := by decide
 
 end GoNfsd.Props.C14
